@@ -1,4 +1,6 @@
 """C02 — standard combination equals the sparse-grid interpolant."""
+import contextlib
+import io
 import itertools
 import random
 
@@ -23,7 +25,9 @@ ASSUMPTIONS = ["d<=4, lmax<=6 (d<=2), <=5 (d=3), <=4 (d=4)", "hierarchical level
 
 def cases(tier, seed):
     n = 260 if tier == "quick" else 4000
-    return [{"gen": "config", "seed": case_seed(seed, "C02", "config", i), "tier": tier} for i in range(n)]
+    m = 120 if tier == "quick" else 1500
+    return [{"gen": "config", "seed": case_seed(seed, "C02", "config", i), "tier": tier} for i in range(n)] + \
+           [{"gen": "reuse", "seed": case_seed(seed, "C02", "reuse", i), "tier": tier} for i in range(m)]
 
 
 def gen(rng):
@@ -34,6 +38,43 @@ def gen(rng):
     lmax = min(cap, lmin + rng.choice([0, 1, 1, 2, 2, 3, 4]))
     kind, a, b = hooks.gen_box(rng, d)
     return {"d": d, "lmin": lmin, "lmax": lmax, "a": a, "b": b, "box": kind, "boundary": rng.random() < 0.5}
+
+
+def prelude(rng, combi, cfg, res):
+    """The same object is first used with other levels and read through its read-only helpers (plots, point queries,
+    interpolation); the final perform_operation(lmin, lmax) must still produce the scheme of (lmin, lmax)."""
+    import matplotlib
+    matplotlib.use("Agg")
+    import matplotlib.pyplot as plt
+    d = cfg["d"]
+    cap = {1: 6, 2: 5, 3: 4, 4: 3}[d]
+    for _ in range(rng.choice([1, 1, 2])):
+        l0 = rng.randint(1, cap - 1)
+        l1 = min(cap, l0 + rng.choice([0, 1, 2]))
+        combi.perform_operation(l0, l1)
+        helpers = rng.sample(["subspaces", "subspaces", "scheme", "sparsegrid", "num_points", "call", "points_weights", "check", "plot"],
+                             rng.randint(1, 4))
+        for h in helpers:
+            res.count("prelude_" + h)
+            with contextlib.redirect_stdout(io.StringIO()):
+                if h == "subspaces" and d == 2:
+                    combi.print_subspaces(sparse_grid_spaces=rng.random() < 0.8)
+                elif h == "scheme" and d in (2, 3):
+                    combi.print_resulting_combi_scheme()
+                elif h == "sparsegrid" and d in (2, 3):
+                    combi.print_resulting_sparsegrid(show_fig=False)
+                elif h == "num_points":
+                    combi.get_total_num_points()
+                    combi.get_total_num_points(doNaive=True)
+                elif h == "call":
+                    combi([tuple(float(cfg["a"][k] + rng.random() * (cfg["b"][k] - cfg["a"][k])) for k in range(d))])
+                elif h == "points_weights":
+                    combi.get_points_and_weights()
+                elif h == "check":
+                    combi.check_combi_scheme()
+                elif h == "plot" and d == 2:
+                    combi.plot()
+            plt.close("all")
 
 
 def run_case(case, res):
@@ -76,6 +117,8 @@ def run_case(case, res):
     grid = TrapezoidalGrid(a=a, b=b, boundary=boundary)
     op = Integration(f=f, grid=grid, dim=d, print_level=100, log_level=100)
     combi = StandardCombi(a, b, operation=op, print_output=False, log_level=100, print_level=100)
+    if case["gen"] == "reuse":
+        prelude(rng, combi, cfg, res)
     scheme, err, result = combi.perform_operation(lmin, lmax)
     sm = [(tuple(int(x) for x in g.levelvector), g.coefficient) for g in scheme]
 
